@@ -129,16 +129,16 @@ Lemma try_paths_fallback f u v : forall aliases canon pi fs reqs err,
 Proof.
   induction aliases as [|a r IH]; intros canon pi fs reqs err H1 H2 Hf Hg.
   - cbn [app try_paths].
-    destruct (try_path_absorbs f v canon (script_of u canon) H1 H2 max_tries 0 0 fs 0 err
+    destruct (try_path_absorbs f v canon (script_of u canon) H1 H2 max_tries 0 0 fs 0 false
                 (Nat.le_refl _) ltac:(unfold max_tries; lia) Hg) as [um [sz [fs' [j [e Ht]]]]].
-    rewrite Ht. exists um, sz, fs', (reqs ++ [(canon, j)]), e. split.
+    rewrite Ht. exists um, sz, fs', (reqs ++ [(canon, j)]), (err || e). split.
     + cbn. rewrite Nat.add_0_r. reflexivity.
     + rewrite map_app. reflexivity.
   - cbn [app try_paths].
     destruct (try_path_fails f v a (script_of u a) (fun n => Hf a n (or_introl eq_refl))
-                             max_tries 0 fs 0 err) as [fs1 [k [e1 Ht]]].
+                             max_tries 0 fs 0 false) as [fs1 [k [e1 Ht]]].
     rewrite Ht.
-    destruct (IH canon (S pi) fs1 (reqs ++ [(a, k)]) e1 H1 H2
+    destruct (IH canon (S pi) fs1 (reqs ++ [(a, k)]) (err || e1) H1 H2
                  (fun p n Hp => Hf p n (or_intror Hp)) Hg) as [um [sz [fs' [reqs' [e [Hd Hm]]]]]].
     exists um, sz, fs', reqs', e. split.
     + rewrite Hd. cbn [List.length]. replace (S pi + List.length r) with (pi + S (List.length r)) by lia.
